@@ -29,8 +29,37 @@ def _cases(tier):
     return r, path, n
 
 
+CHUNK = 40000   # trace lines per TLC run: the deserialised trace has to fit into the capped heap
+
+
+def _tlc_chunks(trace, tag):
+    """Validates the trace in chunks of CHUNK lines (in parallel); line numbers of failures are mapped back."""
+    from concurrent.futures import ThreadPoolExecutor
+    with open(trace) as f:
+        raw = [l for l in f if l.strip()]
+    if len(raw) <= CHUNK:
+        return core.tlc_trace("TraceTxt", "TraceTxt.cfg", trace, tag)
+    parts = []
+    for k in range(0, len(raw), CHUNK):
+        path = "%s.part%d" % (trace, k // CHUNK)
+        with open(path, "w") as f:
+            f.writelines(raw[k:k + CHUNK])
+        parts.append((k, path))
+    del raw
+    with ThreadPoolExecutor(max_workers=6) as ex:
+        res = list(ex.map(lambda kp: core.tlc_trace("TraceTxt", "TraceTxt.cfg", kp[1], "%s-%d" % (tag, kp[0] // CHUNK)), parts))
+    out = {"consumed": 0, "total": 0, "viol": [], "wall_s": 0, "cmd": res[0]["cmd"] + "  (and %d more chunks)" % (len(res) - 1)}
+    for (k, path), r in zip(parts, res):
+        out["consumed"] += r["consumed"]
+        out["total"] += r["total"]
+        out["wall_s"] += r["wall_s"]
+        out["viol"] += [(t, ln + k, cid) for (t, ln, cid) in r["viol"]]
+        os.remove(path)
+    return out
+
+
 def _validate(trace, v, tag):
-    r = core.tlc_trace("TraceTxt", "TraceTxt.cfg", trace, tag)
+    r = _tlc_chunks(trace, tag)
     if r["viol"]:
         lines = core.read_ndjson(trace)
         for (t, ln, cid) in r["viol"]:
